@@ -6,6 +6,7 @@ data, membership).  Guards are the generated expressions (Gen/Sites*.lean).
 Allocation requests (`new (nothrow) char[n]`) are logged.
 -/
 import ElfioVerif.Model.Obj
+import ElfioVerif.Gen.SitesC08
 namespace ElfioVerif
 open Gen
 
@@ -218,21 +219,25 @@ def segLoad (c : Cls) (enc : Enc) (tr : List Trans) (ls : LoadSt) (hdrOff : Int)
 
 /-! ### bounded string lookup used for section names (`string_section_accessor::get_string`) -/
 
-/-- bytes of `data` from `idx` up to (excluding) the first NUL, searching `[idx, size)`;
-    the search is a checked read: it faults only if it would leave the allocation before
-    finding a terminator -/
-def cstrAt (site : String) (data : Bytes) (size idx : Nat) : M (Option Bytes) :=
-  if idx ≥ size then pure none else
-  let avail := slice data idx (size - idx)
+/-- `memchr( data + idx, '\0', n )` as a checked read: the bytes from `idx` up to (excluding) the
+    first NUL among the next `n`; it faults only if it would leave the allocation before finding a
+    terminator -/
+def cstrScan (site : String) (data : Bytes) (idx n : Nat) : M (Option Bytes) :=
+  let avail := slice data idx n
   match avail.idxOf? (0 : UInt8) with
   | some k => pure (some (avail.take k))
-  | none => if avail.length < size - idx then throw (.oobRead site) else pure none
+  | none => if avail.length < n then throw (.oobRead site) else pure none
 
-/-- `get_string(index)` on a section (state after the implied `get_data()`) -/
+/-- `get_string(index)` on a section (state after the implied `get_data()`): the bounds tests and the
+    size arithmetic are the generated expressions of `get_string` (Gen/SitesC08.lean) -/
 def getString (b : SecBuf) (index : BitVec 32) : M (Option Bytes) :=
+  let sectionSize := str_get_section_size b.size
+  if str_get_idx_ge_size index sectionSize || b.data.isNone then pure none else
+  let remaining := str_get_remaining sectionSize index
+  if str_get_underflow remaining sectionSize then pure none else
   match b.data with
   | none => pure none
-  | some d => cstrAt "get_string/memchr" d b.size.toNat index.toNat
+  | some d => cstrScan "get_string/memchr" d index.toNat (str_get_memchr_n remaining).toNat
 
 /-! ### the loader -/
 
@@ -270,17 +275,22 @@ def loadSectionsLoopG (c : Cls) (enc : Enc) (tr : List Trans) (isLazy : Bool) (s
 
 def setAt {α} (l : List α) (i : Nat) (x : α) : List α := l.set i x
 
-/-- names: `const char* p = str_reader.get_string( sections[i]->get_name_string_offset() );`
-    `if ( p != nullptr ) sections[i]->set_name( p );` -/
-def resolveNames (strtab : SecBuf) : List SecBuf → M (List SecBuf)
-  | [] => pure []
-  | b :: rest => do
-    let r ← getString strtab b.nameOff
-    let b := if load_sections_name_found r.isSome then
-               (match r with | some s => { b with name := s } | none => b)
-             else b
-    let rest ← resolveNames strtab rest
-    pure (b :: rest)
+/-- the second `for ( Elf_Half i = 0; i < num; ++i )` of `load_sections`, over `sections[i]` (a null
+    `sections[i]` would be dereferenced); `fuel` as in `loadSectionsLoopG`.  On the `num` sections just
+    created it is `resolveNames` (`LoadTie.resolveNamesG_eq`). -/
+def resolveNamesG (strtab : SecBuf) (num : BitVec 16) : Nat → BitVec 16 → List SecBuf → M (List SecBuf)
+  | 0, _, secs => pure secs
+  | fuel + 1, i, secs =>
+    if load_sections_names_for i num then
+      match secs[i.toNat]? with
+      | none => throw (.nullDeref "load_sections/sections[i]")
+      | some b =>
+        getString strtab b.nameOff >>= fun r =>
+          let b := if load_sections_name_found r.isSome then
+                     (match r with | some s => { b with name := s } | none => b)
+                   else b
+          resolveNamesG strtab num fuel (i + 1) (secs.set i.toNat b)
+    else pure secs
 
 def memberOf (g : Seg) (b : SecBuf) : Bool :=
   let segEndOff := load_segments_seg_end_off g.offset g.filesz
@@ -333,7 +343,7 @@ def loadSectionsM (c : Cls) (enc : Enc) (tr : List Trans) (isLazy : Bool) (hdr :
     | some strtab =>
       let (ls, strtab) := secGetData c tr ls strtab
       let secs := secs.set shstrndx.toNat strtab
-      (resolveNames strtab secs) >>= fun secs => pure (ls, secs)
+      (resolveNamesG strtab num num.toNat 0 secs) >>= fun secs => pure (ls, secs)
   else pure (ls, secs)
 
 /-- `elfio::load_segments( stream, is_lazy )` -/
